@@ -210,6 +210,7 @@ pub fn run(t: &[String]) -> String {
             match h.join() { Ok(r) => r, Err(_) => "PANIC".into() }
         }
         "parse_disp" => disp::run(&unhex(&t[1])),
+        "parse_kind" => disp::run_kind(&t[1]),
         _ => "UNKNOWN_PROBE".into(),
     }
 }
@@ -261,9 +262,42 @@ mod disp {
         })
     }
 
+    /// A representative command of each `Command` variant, dispatched on the engine.
+    pub fn run_kind(k: &str) -> String {
+        let text = match k {
+            "Define" => "DEFINE c17kind FIELDS { \"a\": \"int\" }",
+            "Store" => "STORE c17kind FOR c PAYLOAD {\"a\":1}",
+            "Query" => "QUERY c17kind",
+            "RememberQuery" => "REMEMBER QUERY c17kind AS c17m",
+            "ShowMaterialized" => "SHOW c17m",
+            "Replay" => "REPLAY FOR c",
+            "Ping" => "PING",
+            "Flush" => "FLUSH",
+            "Batch" => "BATCH [ PING ]",
+            "Compare" => "PLOT COUNT OF c17kind VS COUNT OF c17other",
+            "CreateUser" => "CREATE USER c17u",
+            "RevokeKey" => "REVOKE KEY c17u",
+            "ListUsers" => "LIST USERS",
+            "GrantPermission" => "GRANT READ ON c17kind TO c17u",
+            "RevokePermission" => "REVOKE READ ON c17kind FROM c17u",
+            "ShowPermissions" => "SHOW PERMISSIONS FOR c17u",
+            _ => return "BADKIND".into(),
+        };
+        let cmd = match parse_command(text) { Ok(c) => c, Err(_) => return "NOPARSE".into() };
+        // the representative must really be of the requested variant
+        let dbg = format!("{:?}", cmd);
+        let head: String = dbg.chars().take_while(|c| c.is_alphanumeric()).collect();
+        if head != k { return format!("WRONGKIND {}", head); }
+        dispatch(cmd)
+    }
+
     pub fn run(b: &[u8]) -> String {
         let s = match std::str::from_utf8(b) { Ok(s) => s.to_string(), Err(_) => return "BADUTF8".into() };
         let cmd = match parse_command(&s) { Ok(c) => c, Err(_) => return "NOPARSE".into() };
+        dispatch(cmd)
+    }
+
+    fn dispatch(cmd: Command) -> String {
         let e = eng();
         let ctx = e.ctx.clone();
         // the dispatch runs as its own task so that a panic inside it is contained like in the server
